@@ -10,7 +10,53 @@ import (
 // C05 - one compiled template can be executed from many goroutines at once.
 // Runs in the -race worker; the driver parses the race detector's log files.
 
+// c05RaceOnly executes programs with documented non-determinism (random, now, lorem random, unsorted maps)
+// concurrently: their outputs cannot be compared, but the race detector (and the absence of panics) still judges them.
+func c05RaceOnly(c *C) {
+	r := c.R
+	g := newGen(r, GenOpts{Filters: c01Filters, MaxDepth: 3, ErrorRate: 2, CtxVars: detCtxVars, CtxVarBias: 60})
+	main, files := g.program()
+	main += r.Pick([]string{"{% lorem 5 w random %}", "{% lorem 2 p random %}", "{{ z_ints|random }}{{ z_str|random }}", "{% now \"15:04:05\" %}", "{% for k, v in z_map %}{{ k }}{% endfor %}", "{% lorem 3 b random %}{{ lst|random }}"})
+	main += "{% lorem 4 w random %}"
+	inc := files["#incname"]
+	delete(files, "#incname")
+	files["/main.tpl"] = main
+	set, _ := newSet(files)
+	tpl, err := set.FromFile("/main.tpl")
+	c.Eval(1)
+	if err != nil {
+		c.Cover("rejected")
+		return
+	}
+	k := []int{2, 4, 8}[r.Intn(3)]
+	iters := 10 + r.Intn(20)
+	var wg sync.WaitGroup
+	start := make(chan struct{})
+	for g := 0; g < k; g++ {
+		gr := r.Fork()
+		wg.Add(1)
+		go func(gr *Rng) {
+			defer wg.Done()
+			pool := detPool(inc, func() { runtime.Gosched() })
+			<-start
+			for it := 0; it < iters; it++ {
+				detExec(tpl, pool[gr.Intn(len(pool))], gr.Intn(4))
+			}
+		}(gr)
+	}
+	close(start)
+	wg.Wait()
+	c.Eval(k * iters)
+	c.AddExtra("concurrent_executions_observed", int64(k*iters))
+	c.Cover("race_only_nondeterministic_program")
+	c.Nontrivial("raceonly:" + main)
+}
+
 func c05Run(c *C) {
+	if c.Idx%5 == 4 {
+		c05RaceOnly(c)
+		return
+	}
 	r := c.R
 	p := detProgram(r)
 	opt := r.Intn(4)
@@ -154,7 +200,7 @@ func init() {
 		Run:         c05Run,
 		CaseTimeout: 120,
 		Rule: "race-detector build of the worker: per case one deterministic program (same generator as C04: every tag, static and lazy includes, imported macros, inheritance, cycle/ifchanged, TrimBlocks/LStripBlocks) is compiled once and executed by k in {2,4,8,16} goroutines x 10..40 (quick) / 20..200 (thorough) iterations under GOMAXPROCS in {2,4,16}, mixing the four Execute entry points with FromCache/FromFile/FromString on the same set; " +
-			"every goroutine passes its own Context map (shared immutable values), context functions yield or sleep 0-200us at random. Oracle: (1) zero race reports with a pongo2 frame in the GORACE logs (reports de-duplicated by the innermost engine frames), (2) every concurrent result equals the sequential reference (fresh compile, single execution). distinct_nontrivial = distinct programs executed concurrently.",
+			"every goroutine passes its own Context map (shared immutable values), context functions yield or sleep 0-200us at random. Oracle: (1) zero race reports with a pongo2 frame in the GORACE logs (reports de-duplicated by the innermost engine frames), (2) every concurrent result equals the sequential reference (fresh compile, single execution) and every error position lies in the program's own sources; one case in five runs a program with documented non-determinism (random, now, lorem random, unsorted map iteration) concurrently, judged by the race detector only. distinct_nontrivial = distinct programs executed concurrently.",
 		MinNontriv:  100,
 		Assumptions: []string{"only the dynamic half of the property is decided", "documented caller obligations are respected (no concurrent writes to Debug/Globals/Options, no registration during execution)", "Go race detector: no false positives, schedule dependent"},
 	})
